@@ -453,7 +453,7 @@ func Defer[T any](factory func() Observable[T]) Observable[T] {
 // for each Observer that subscribes to the Observable.
 func Future[T any](factory func() (T, error)) Observable[T] {
 	return NewUnsafeObservableWithContext(func(ctx context.Context, destination Observer[T]) Teardown {
-		go func() {
+		go recoverUnhandledError(func() {
 			v, err := factory()
 			if err != nil {
 				destination.ErrorWithContext(ctx, err)
@@ -462,7 +462,7 @@ func Future[T any](factory func() (T, error)) Observable[T] {
 
 			destination.NextWithContext(ctx, v)
 			destination.CompleteWithContext(ctx)
-		}()
+		})
 
 		return nil
 	})
